@@ -422,6 +422,7 @@ func runStream(p *Property, st *Stream, d *Driver, tier string, seed uint64, rep
 
 	seen := map[string]bool{}
 	seenKeys := map[string]bool{}
+	shrunk := 0
 	for i, c := range cases {
 		js := string(caseJSON(c))
 		first := !seen[js]
@@ -464,9 +465,10 @@ func runStream(p *Property, st *Stream, d *Driver, tier string, seed uint64, rep
 		if f.model != f.impl {
 			sr.Disagreements++
 		}
-		if len(res.Violations) >= 40 {
+		if len(res.Violations) >= 40 || shrunk >= 60 {
 			continue
 		}
+		shrunk++
 		g := shrink(d, f, 400)
 		key := caseKey(st.Name, g.c) + "|" + kind
 		if seenKeys[key] {
